@@ -206,6 +206,31 @@ where
           | _, _ => none
       | none => rustParseF64 (filterUnderscore value)
 
+/-- The literal class on which `HexNumber::compute_value` (`integer * 2_u64.pow(exponent)` in `u64`)
+overflows: a panic in builds with overflow checks, a wrapped value in release builds (known finding
+C12-F10). `parseLitFloat` answers `none` on exactly these texts. -/
+def hexExpOverflowLit (value : List UInt8) : Bool :=
+  match value.head? == some 48, secondNonUnderscore value with
+  | true, some (position, c) =>
+    if c == 120 || c == 88 then
+      match (findByte 112 value).orElse (fun _ => findByte 80 value) with
+      | some index =>
+        match rustParseU32 (value.drop (index + 1)), rustU64Radix 16 ((value.take index).drop (position + 1)) with
+        | some ex, some n => !(ex < 64 && n * 2 ^ ex < 2 ^ 64)
+        | _, _ => false
+      | none => false
+    else false
+  | _, _ => false
+
+/-- … as a string operand of `number_coercion` (after `from_utf8`, `trim`, the leading `-`) -/
+def hexExpOverflowStr (s : List UInt8) : Bool :=
+  match utf8Trim s with
+  | none => false
+  | some t =>
+    match t with
+    | 45 :: rest => hexExpOverflowLit rest
+    | _ => hexExpOverflowLit t
+
 /-- what darklua computes, over doubles -/
 def floatEvalOps : EvalOps floatOps where
   epsEq := epsEqFloat
